@@ -568,7 +568,11 @@ func report(pd *PropDef, tier string, agg *aggregate, nItems int, wall time.Dura
 			agg.warnings = append(agg.warnings, "unstable violation dropped: "+f.V.Key()+": "+f.V.Msg)
 			continue
 		}
-		emit(&f.V, map[string]any{"property": pd.ID, "kind": "schedule", "violation": f.V, "scenario": f.Scenario, "dsl": f.Scenario.DSL(), "choices": f.Choices, "events": f.Events, "points": f.Points})
+		dsl := ""
+		if f.Scenario != nil {
+			dsl = f.Scenario.DSL()
+		}
+		emit(&f.V, map[string]any{"property": pd.ID, "kind": "schedule", "violation": f.V, "scenario": f.Scenario, "dsl": dsl, "choices": f.Choices, "events": f.Events, "points": f.Points})
 	}
 	for _, f := range agg.enumFound {
 		emit(&f.V, map[string]any{"property": pd.ID, "kind": "input", "violation": f.V, "input": f.Input})
